@@ -27,8 +27,13 @@ of the chain stored now.  Whether B's array shares memory with A (numpy view) is
 counted 'buffer-shared:<op>') but not judged: the statement does not promise independent storage.
 
 E3 (configuration product) - cells 'stats'/'ess': mean / median / variance / std / credible intervals for
-every configuration x credibility level against per-coordinate computations on the raw array; ESS / R-hat
-against per-variable arviz calls on the unpermuted chains.
+every configuration x credibility level x MAGNITUDE of the stored values against per-coordinate computations on the
+raw array; ESS / R-hat against per-variable arviz calls on the unpermuted chains.  Magnitude facet: every coordinate's
+chain is stored as level + scale * (O(1) dyadic chain) with powers of two for level and scale (exact doubles): unit,
+all values * 2^-30, * 2^30, large common offset with small differences (+-2^20 + 2^-6 x, |mean|/std ~ 2^26), a different
+level/scale per coordinate (mixed), and chains without any spread (constant).  There the oracle is scale-aware: each
+coordinate is compared relative to its own scale (location statistics, bounds) or to the reference statistic itself
+(variance, std), so that a statistic that is only right for O(1), centred chains is a violation.
 
 E4 (read-only operations, cells 'ro') - the operation alphabet is EVERY public consumer of the stored chain:
 mean / median / variance / std / compute_ci / ci_width (default and explicit level), burnthin (four (b,t) incl. the
@@ -70,8 +75,12 @@ RULE = ("hist/joint cells = geometry x start representation x Ns; inside a cell 
         "on a FRESH start object, then attribute-level independence of the last operation's result and source in both "
         "directions (re-bind samples / geometry / flags, look at the other object, undo) and use -> re-assign samples -> "
         "use on the result (mean, funvals of the chain stored now); indep-joint likewise for JointSamples members and "
-        "dictionary entries; stats cells = configuration x Ns, every statistic x credibility level compared "
-        "per coordinate; ess cells = dimension x Ns x variable naming x number of extra chains.  A cell is "
+        "dictionary entries; stats cells = configuration x Ns x magnitude of the stored values (unit / all tiny / all huge "
+        "/ large positive or negative common offset with small spread / different level and scale per coordinate / "
+        "constant chain), every statistic x credibility level compared per coordinate - for the non-unit magnitudes "
+        "relative to the coordinate's own scale (variance / std relative to the reference value, plus the (8 eps max|x|)^2 "
+        "resp. 8 eps max|x| that an inexact mean costs any backward stable evaluation), for the directly built chain, its "
+        "function values and its burnthin(1,2); ess cells = dimension x Ns x variable naming x number of extra chains.  A cell is "
         "non-trivial when at least one operation returned a new object that was compared.  ro cells = configuration x "
         "origin of the object (own C/F-ordered array, burnthin view of a parent, shallow copy, JointSamples member) x "
         "chain length: operation alphabet = every public consumer of the chain (statistics, credible intervals, burnthin, "
@@ -89,7 +98,8 @@ BOUND = {
              "JointSamples every burnthin history of length <= 2 from Ns=1..6; 14 start configurations (default geometry dim 1..3 as "
              "parameters and as function vectors, Continuous2D 2x3 par/fun, Image2D 2x3 C and F par/funvec/fun, "
              "StepExpansion 6 nodes/2 steps par/funvec) + JointSamples with 2 members; statistics: same configurations, "
-             "Ns=1..7, credibility {0,50,68,95,99,100}; ESS/R-hat: dims {1,2,3,10,11,12,13}, Ns {25,40}, default and "
+             "Ns=1..7, credibility {0,50,68,95,99,100}, 7 magnitudes (unit, *2^-30, *2^30, 2^20 + 2^-6 x, -2^20 + 2^-6 x, "
+             "per-coordinate cycle of 7 (level, scale) pairs with levels up to 2^30, constant chain at +-(2^20 + 0.375 i)); ESS/R-hat: dims {1,2,3,10,11,12,13}, Ns {25,40}, default and "
              "custom (unsorted) variable names, 1-2 extra chains; read-only operations: 8 configurations (default dim 1/3 par, "
              "default dim 2 funvec, Continuous2D fun, Image2D F par/funvec, Image2D C fun, StepExpansion funvec) x {burnthin "
              "view of a parent n=40 with all ordered pairs of the 23 cheap operations, JointSamples member n=40, own array "
@@ -114,6 +124,11 @@ ASSUMPTIONS = [
     "access, statistics of a legal chain, burnthin with b < Ns) is reported as a violation '...|raises...'; exceptions "
     "raised by the check's own code remain harness errors",
     "a conversion the geometry does not offer (Continuous2D has no vector form) may raise; the branch ends there",
+    "magnitude facet: stored values are level + scale * x with |level| <= 2^30, 2^-30 <= scale <= 2^30 (no overflow / "
+    "underflow of squares); 'the per-coordinate variance' is demanded to 1e-11 relative to the exact variance plus "
+    "(8 eps max|x|)^2 - met by every evaluation that centres the chain (two-pass, Welford), not by E[x^2] - E[x]^2 once "
+    "|mean|/std exceeds ~1e3; the O(1) cells and the long chains of the ro cells keep the absolute comparison of "
+    "vfw.core.close; ESS / R-hat / Geweke are not run on the non-unit magnitudes",
     "variance/std: numpy's default (population, ddof=0) or the sample version (ddof=1) accepted if used consistently; "
     "credible bounds: any of numpy's percentile interpolation rules accepted, the default (linear) is what is observed",
     "reference conversions are index loops written here (Image2D order, StepExpansion partition, identity for the "
@@ -266,20 +281,49 @@ def _values_build(shape, Ns, k, salt):
     return A.reshape(tuple(shape) + (Ns,))
 
 
-def _start(cf, start, Ns, k):
+# Magnitude facet of the stored values (statistics cells).  Every coordinate's chain x_j (dyadic, O(1), from _values)
+# is stored as level + scale * x_j; levels and scales are powers of two, so the stored values are exact doubles and
+# the spread / level ratio is known: 'offset' chains have |mean| / std of about 2^26 (a well identified quantity far
+# from zero), 'constant' chains have no spread at all (degenerate but legal).
+_MAG_TABLE = {"unit": (0.0, 1.0), "tiny": (0.0, 2.0 ** -30), "huge": (0.0, 2.0 ** 30),
+              "offset": (2.0 ** 20, 2.0 ** -6), "neg-offset": (-2.0 ** 20, 2.0 ** -6)}
+_MAG_CYCLE = [(2.0 ** 20, 2.0 ** -6), (0.0, 1.0), (-2.0 ** 24, 2.0 ** -2), (0.0, 2.0 ** 30), (2.0 ** -4, 2.0 ** -30),
+              (2.0 ** 30, 2.0 ** 4), (0.0, 2.0 ** -30)]
+MAGS = ["unit", "tiny", "huge", "offset", "neg-offset", "mixed", "constant"]
+MAG_CLASS = {"unit": None, "tiny": "scaled", "huge": "scaled", "offset": "offset", "neg-offset": "offset",
+             "mixed": "offset", "constant": "offset"}
+
+
+def _mag_apply(raw, mag):
+    """raw (item_shape + (Ns,)) with the magnitude facet applied coordinate by coordinate."""
+    if mag == "unit":
+        return raw
+    out = np.empty_like(raw)
+    for i, idx in enumerate(np.ndindex(*raw.shape[:-1])):
+        if mag == "mixed":
+            level, scale = _MAG_CYCLE[i % len(_MAG_CYCLE)]
+        elif mag == "constant":
+            level, scale = (2.0 ** 20 + 0.375 * (i + 1)) * (-1.0) ** i, 0.0
+        else:
+            level, scale = _MAG_TABLE[mag]
+        out[idx] = level + scale * raw[idx]
+    return out
+
+
+def _start(cf, start, Ns, k, mag="unit"):
     """(Samples, Ref) for a start representation: 'par' | 'funvec' | 'fun'."""
     import cuqi
     if start == "par":
-        raw = _values((cf.par_dim,), Ns, k)
+        raw = _mag_apply(_values((cf.par_dim,), Ns, k), mag)
         S = cuqi.samples.Samples(raw.copy(), geometry=cf.geom)
         S.geometry      # the default geometry is created lazily on first access: do it before fingerprinting
         return S, Ref([raw[..., j].copy() for j in range(Ns)], True, True)
     if start == "funvec":
-        raw = _values((cf.funvec_dim,), Ns, k, salt=1)
+        raw = _mag_apply(_values((cf.funvec_dim,), Ns, k, salt=1), mag)
         S = cuqi.samples.Samples(raw.copy(), geometry=cf.geom, is_par=False, is_vec=True)
         S.geometry
         return S, Ref([raw[..., j].copy() for j in range(Ns)], False, True)
-    raw = _values(cf.fun_shape, Ns, k, salt=2)
+    raw = _mag_apply(_values(cf.fun_shape, Ns, k, salt=2), mag)
     S = cuqi.samples.Samples(raw.copy(), geometry=cf.geom, is_par=False, is_vec=False)
     return S, Ref([raw[..., j].copy() for j in range(Ns)], False, False)
 
@@ -319,8 +363,9 @@ def cells(tier, seed):
         yield {"fam": "indep-joint", "Ns": Ns, "depth": 2, "cat": k}
     for kind, start in HIST_CONFS:
         for Ns in range(1, 8):
-            yield {"fam": "stats", "geom": kind, "start": start, "Ns": Ns, "cat": k,
-                   "ncat": 1 if tier == "quick" else 3}
+            for mag in MAGS:
+                yield {"fam": "stats", "geom": kind, "start": start, "Ns": Ns, "cat": k, "mag": mag,
+                       "ncat": 1 if tier == "quick" else 3}
     for d in (1, 2, 3, 10, 11, 12, 13):
         for Ns in (25, 40):
             for names in ("default", "custom"):
@@ -869,12 +914,46 @@ def _ref_pct(raw, q, method="linear"):
     return out
 
 
-def _check_stats(res, fail, S, raw, label):
-    """All statistics of Samples S against the raw array `raw` (item_shape + (Ns,))."""
+_EPS = 2.0 ** -52
+
+
+def _within(got, ref, tol):
+    """|got - ref| <= tol elementwise (NaN only where the reference is NaN, infinities equal)."""
+    got, ref = np.asarray(got, float), np.asarray(ref, float)
+    if got.shape != ref.shape:
+        return False
+    nan = np.isnan(ref)
+    if np.any(np.isnan(got) != nan):
+        return False
+    fin = ~nan
+    if np.any(np.isinf(got[fin]) | np.isinf(ref[fin])):
+        return bool(np.array_equal(got[fin], ref[fin]))
+    return bool(np.all(np.abs(got[fin] - ref[fin]) <= np.broadcast_to(tol, ref.shape)[fin]))
+
+
+def _check_stats(res, fail, S, raw, label, mag=None):
+    """All statistics of Samples S against the raw array `raw` (item_shape + (Ns,)).
+
+    mag None: values are O(1), comparisons with vfw.core.close (relative to max(1, |values|)).
+    mag 'scaled' / 'offset' (magnitude facet; constant chains count as 'offset'): every comparison is made per coordinate relative to that
+    coordinate's own scale A_i = max_j |x_ij| (location statistics, interval bounds, widths) or to the reference
+    value itself (variance, standard deviation).  The only absolute allowance is the one every backward stable
+    evaluation needs: the mean is known to about eps*A_i only, which moves the variance by at most (8 eps A_i)^2 and
+    the standard deviation by at most 8 eps A_i."""
     R = _ref_stats(raw)
     shape = raw.shape[:-1]
     res.count("stats-on:" + label)
     label = "multi-dim-samples" if len(shape) > 1 else "vector-samples"   # the only facet that selects a code path
+    if mag is not None:
+        label += ",mag=" + mag
+        res.count("stats-mag:" + mag)
+    A = np.max(np.abs(raw), axis=-1) if raw.shape[-1] else np.zeros(shape)
+
+    def eq(a, b, rtol, scale=None, atol=0.0):
+        if mag is None:
+            return close(a, b, rtol)
+        sc = np.where(np.isnan(scale), 0.0, np.abs(scale))
+        return _within(a, b, rtol * sc + atol)
     got = {}
     for name, fn in (("mean", S.mean), ("median", S.median), ("variance", S.variance), ("std", S.std)):
         res.transitions += 1
@@ -887,13 +966,13 @@ def _check_stats(res, fail, S, raw, label):
         if got[name].shape != shape:
             fail(name, "shape,%s" % label, "%s() has shape %s, one value per coordinate means %s" % (name, got[name].shape, shape))
             return
-    if not close(got["mean"], R["mean"], 1e-12):
+    if not eq(got["mean"], R["mean"], 1e-12, A):
         fail("mean", "values,%s" % label, "mean() is not the per-coordinate mean over the sample axis", impl=got["mean"], ref=R["mean"])
-    if not close(got["median"], R["median"], 1e-12):
+    if not eq(got["median"], R["median"], 1e-12, A):
         fail("median", "values,%s" % label, "median() is not the per-coordinate median over the sample axis", impl=got["median"], ref=R["median"])
     dd = None
     for name, r in (("var0", R["var0"]), ("var1", R["var1"])):
-        if close(got["variance"], r, 1e-11):
+        if eq(got["variance"], r, 1e-11, r, (8 * _EPS * A) ** 2):
             dd = name
             break
     if dd is None:
@@ -901,7 +980,7 @@ def _check_stats(res, fail, S, raw, label):
              impl=got["variance"], ref=R["var0"])
     else:
         res.count("variance-" + dd)
-        if not close(got["std"], np.sqrt(R[dd]), 1e-11):
+        if not eq(got["std"], np.sqrt(R[dd]), 1e-11, np.sqrt(R[dd]), 8 * _EPS * A):
             fail("std", "values,%s" % label, "std() is not the square root of the per-coordinate variance", impl=got["std"],
                  ref=np.sqrt(R[dd]))
     for pc in PERCENTS:
@@ -920,7 +999,7 @@ def _check_stats(res, fail, S, raw, label):
         ql, qu = (100 - pc) / 2.0, 100 - (100 - pc) / 2.0
         matched = None
         for meth in _PCT_METHODS:
-            if close(lo, _ref_pct(raw, ql, meth), 1e-12) and close(up, _ref_pct(raw, qu, meth), 1e-12):
+            if eq(lo, _ref_pct(raw, ql, meth), 1e-12, A) and eq(up, _ref_pct(raw, qu, meth), 1e-12, A):
                 matched = meth
                 break
         if matched is None:
@@ -928,14 +1007,14 @@ def _check_stats(res, fail, S, raw, label):
                  "the sample axis" % (pc, ql, qu), impl=[lo, up], ref=[_ref_pct(raw, ql), _ref_pct(raw, qu)])
         else:
             res.count("percentile-" + matched)
-        tol = 1e-12 * max(1.0, float(np.max(np.abs(raw))))
+        tol = 1e-12 * max(1.0, float(np.max(np.abs(raw)))) if mag is None else 1e-12 * A
         if np.any(lo > R["median"] + tol) or np.any(R["median"] > up + tol):
             fail("compute_ci", "order,%s" % label, "lower bound <= median <= upper bound violated at level %s" % pc,
                  lo=lo, median=R["median"], up=up)
-        if not close(w, up - lo, 1e-12):
+        if not eq(w, up - lo, 1e-12, A):
             fail("ci_width", "values,%s" % label, "ci_width(%s) is not upper - lower bound" % pc, impl=w, ref=up - lo)
         if pc == 100 and matched is not None:
-            if not close(lo, raw.min(axis=-1), 1e-12) or not close(up, raw.max(axis=-1), 1e-12):
+            if not eq(lo, raw.min(axis=-1), 1e-12, A) or not eq(up, raw.max(axis=-1), 1e-12, A):
                 fail("compute_ci", "values,%s" % label, "the 100% interval is not [min, max] of each coordinate")
     res.outcomes.add("stats:%s:%s" % (shape, np.round(got["mean"].ravel()[:2], 6).tolist()))
 
@@ -950,14 +1029,16 @@ def eval_stats(cell, res):
             res.fail(sig, msg, **d)
     cf = Conf(cell["geom"])
     Ns = cell["Ns"]
+    mag = cell.get("mag", "unit")
+    mclass = MAG_CLASS[mag]
     for kk in range(cell["ncat"]):
         k = cell["cat"] + kk
-        S, ref = _start(cf, cell["start"], Ns, k)
+        S, ref = _start(cf, cell["start"], Ns, k, mag)
         item = (cf.par_dim,) if ref.is_par else ((cf.funvec_dim,) if ref.is_vec else cf.fun_shape)
         raw = ref.array(item)
         before = _fp(S)
-        res.state("stats-" + ref.key())
-        _check_stats(res, fail, S, raw, "repr=" + ("par" if ref.is_par else ("funvec" if ref.is_vec else "fun")))
+        res.state("stats-" + ref.key() + ":mag=" + mag)
+        _check_stats(res, fail, S, raw, "repr=" + ("par" if ref.is_par else ("funvec" if ref.is_vec else "fun")), mclass)
         # statistics of function-value samples are those of the converted samples
         if ref.is_par or ref.is_vec:
             rf = ref.funvals(cf)
@@ -968,9 +1049,11 @@ def eval_stats(cell, res):
                 Sf = None
             if Sf is not None:
                 res.state("stats-funvals")
-                if np.asarray(Sf.samples).shape == rf.array(cf.fun_shape).shape and \
-                        close(np.asarray(Sf.samples), rf.array(cf.fun_shape), 1e-12):
-                    _check_stats(res, fail, Sf, rf.array(cf.fun_shape), "repr=converted-fun")
+                wantf = rf.array(cf.fun_shape)
+                gotf = np.asarray(Sf.samples)
+                if gotf.shape == wantf.shape and (close(gotf, wantf, 1e-12) if mclass is None else _within(
+                        gotf, wantf, 1e-12 * np.max(np.abs(wantf), axis=-1, keepdims=True))):
+                    _check_stats(res, fail, Sf, wantf, "repr=converted-fun", mclass)
                 else:
                     res.count("conversion-differs-statistics-not-judged")   # flagged by the history cells
         # statistics after burn-in/thinning are those of the slice
@@ -986,7 +1069,7 @@ def eval_stats(cell, res):
             if Sb is None:
                 pass
             elif np.array_equal(np.asarray(Sb.samples), rb.array(item)):
-                _check_stats(res, fail, Sb, rb.array(item), "repr=burnthinned")
+                _check_stats(res, fail, Sb, rb.array(item), "repr=burnthinned", mclass)
             else:
                 res.count("burnthin-differs-statistics-not-judged")   # flagged by the history cells
         if _fp(S) != before:
